@@ -431,10 +431,12 @@ class Shelxfile():
                     self.residues.append(self.resi)
                 continue
             # Now collect the PART:
-            if line.startswith(('END', 'HKLF')) and self.part:
-                self.part.n = 0
-                if self.debug or self.verbose:
+            if line.startswith(('END', 'HKLF')):
+                if self.part and (self.debug or self.verbose):
                     print('PART in line {} was not closed'.format(line_num + 1))
+                # The PART ends here. A new object, because the atoms above keep a reference to the old one
+                # and neither their part number nor a PART occupancy may leak into the Q-peaks:
+                self.part = PART(self, ['PART', '0'])
                 # Do not continue here, otherwise HKLF is not parsed
                 # continue
             if word == 'PART':
